@@ -21,7 +21,7 @@ def sh(cmd, **kw):
 
 
 def worker(idx, queue, results, lock, tier):
-    base = f"/tmp/cl-{idx}"
+    base = f"/tmp/cl-{os.getpid()}-{idx}"   # unique per invocation: two runs at once must not share scratch copies
     shutil.rmtree(base, ignore_errors=True)
     os.makedirs(base)
     repo, verif = f"{base}/repo", f"{base}/verif"
